@@ -68,7 +68,7 @@ func (e *Engine) info(fn *ssa.Function) *fnInfo {
 	fi.loopHead = make([]bool, len(fn.Blocks))
 	for _, b := range fn.Blocks {
 		for _, s := range b.Succs {
-			if s.Index <= b.Index {
+			if s.Dominates(b) { // back edge of a natural loop
 				fi.loopHead[s.Index] = true
 			}
 		}
@@ -993,7 +993,7 @@ func (fr *frame) prepareCall(c *ssa.CallCommon) (Value, []Value) {
 		if recv.t == nil {
 			ex.throw("invalid memory address or nil pointer dereference (method " + c.Method.Name() + " on nil interface)")
 		}
-		f := ex.eng.prog.LookupMethod(recv.t, c.Method.Pkg(), c.Method.Name())
+		f := ex.eng.lookupMethod(recv.t, c.Method.Pkg(), c.Method.Name())
 		if f == nil {
 			panic(engineErr("method %s not found for %s", c.Method.Name(), recv.t))
 		}
@@ -1172,7 +1172,7 @@ func (ex *Exec) panicMessage(v Value) string {
 			return s.String()
 		}
 		// error values: try Error()
-		if m := ex.eng.prog.LookupMethod(x.t, nil, "Error"); m != nil {
+		if m := ex.eng.lookupMethod(x.t, nil, "Error"); m != nil {
 			var res Value
 			func() {
 				defer func() {
@@ -1550,4 +1550,13 @@ func sortedKeys(m map[string]bool) []string {
 	}
 	sort.Strings(ks)
 	return ks
+}
+
+// lookupMethod returns the method named name of type t, or nil (prog.LookupMethod panics when absent).
+func (e *Engine) lookupMethod(t types.Type, pkg *types.Package, name string) *ssa.Function {
+	sel := e.prog.MethodSets.MethodSet(t).Lookup(pkg, name)
+	if sel == nil {
+		return nil
+	}
+	return e.prog.MethodValue(sel)
 }
